@@ -28,6 +28,9 @@ pub enum Action {
     ExecThenRet(usize),
     /// Execute normally (useful to shadow a later, broader rule).
     PassThrough,
+    /// Do not enter the kernel: the harness function computes the return register from the
+    /// arguments (and may read/write the memory they point to), e.g. a virtual-time `nanosleep`.
+    Emulate(fn(&[usize; 6]) -> usize),
 }
 
 #[derive(Debug, Clone, Copy)]
@@ -328,6 +331,10 @@ unsafe fn dispatch_slow(st: &mut State, n: usize, mut args: [usize; 6], nargs: u
             return v;
         }
         Action::PassThrough => (exec(n, &args), true),
+        Action::Emulate(f) => {
+            st.forced_count += 1;
+            (f(&args), false)
+        }
     };
     if executed {
         account(n, &args, ret);
